@@ -34,6 +34,10 @@ func runC03(c *Ctx) {
 	if vac := c.Anchor("pkg/consensus.(*Executer).verifyAggregateCommit"); vac != nil {
 		checkAggregateCommitVerifier(c, "C03.A", vac)
 	}
+	// the generator key a signature is checked against and the validatorsHash a header must
+	// carry are the ones the application set last: skipping the update is licensed only by a
+	// comparison of every stored field
+	checkChangeDetectionComplete(c, "C03.G change-detection-complete", []string{"pkg/consensus/liskbft.(*API).SetBFTParameters", "pkg/consensus/liskbft.(*API).SetGeneratorKeys"})
 	vf := factsOf(verify)
 
 	// ---- V: reject-edge table in verifyBlock
